@@ -22,12 +22,12 @@ _SUITE_FILE_INCLUSION_CYCLE = 'The suite has already been included.'
 
 
 def report_suite_parse_error(ex: SuiteParseError,
-                             stdout_printer: FilePrinter,
+                             exit_identifier_printer: FilePrinter,
                              stderr_printer: FilePrinter,
                              ) -> int:
     exit_value = ex.document_parser_exception.accept(_GetParseErrorExitValue())
-    stdout_printer.write_colored_line(exit_value.exit_identifier, exit_value.color)
-    stdout_printer.file.flush()
+    exit_identifier_printer.write_colored_line(exit_value.exit_identifier, exit_value.color)
+    exit_identifier_printer.file.flush()
 
     blocks_renderer = _suite_parse_error_renderer(ex)
     reporting.print_major_blocks(blocks_renderer,
